@@ -178,8 +178,10 @@ Theorem load_oracle_model now files init :
   load_oracle now init s' (latest_key s' 1) = true.
 Proof.
   destruct (load_trcs now files init [] []) as [[[e l] i] s'] eqn:E. cbn [snd].
-  unfold load_oracle. rewrite latest_oracle_model, andb_true_r. apply forallb_forall. intros t Ht.
-  destruct (load_trcs_origin _ _ _ _ _ _ _ _ _ E t Ht) as [K|(n & _ & K)].
-  - now rewrite (in_store_In t init K).
-  - apply Z.leb_le in K. rewrite K. apply orb_true_r.
+  unfold load_oracle. rewrite latest_oracle_model, andb_true_r. apply andb_true_iff. split.
+  - apply forallb_forall. intros t Ht.
+    destruct (load_trcs_origin _ _ _ _ _ _ _ _ _ E t Ht) as [K|(n & _ & K)].
+    + now rewrite (in_store_In t init K).
+    + apply Z.leb_le in K. rewrite K. apply orb_true_r.
+  - apply forallb_forall. intros t Ht. apply in_store_In. eapply load_trcs_grows; eauto.
 Qed.
